@@ -487,6 +487,48 @@ func (x *Exec) havocCall(site ssa.Instruction, sig *types.Signature, name string
 	if fn != nil && !u.eng.inRepo(fn) && fn.Pkg != nil && safeExternalPkg(fn.Pkg.Pkg.Path()) {
 		all = false
 	}
+	// interface-typed arguments that wrap a pointer or a slice (binary.Read(r, order, &n),
+	// io.ReadFull(r, buf) ...): the callee may write through them
+	type span struct {
+		heap string
+		pred func(p Term) Term
+	}
+	var spans []span
+	for _, a := range args {
+		t, ok := a.(Term)
+		if !ok {
+			continue
+		}
+		bv, ok := u.boxed[t.S]
+		if !ok {
+			continue
+		}
+		switch bt := bv.T.Underlying().(type) {
+		case *types.Pointer:
+			if pv, ok := bv.V.(Term); ok {
+				hn, _ := x.heapOf(bt.Elem())
+				heaps[hn] = true
+				pp := pv
+				spans = append(spans, span{hn, func(p Term) Term { return Eq(p, pp) }})
+				x.typeClosureHeaps(bt.Elem(), heaps, seen, true)
+			} else if lv, ok := bv.V.(*Loc); ok && lv.Kind == "heap" && len(lv.Path) == 0 {
+				hn, _ := x.heapOf(bt.Elem())
+				heaps[hn] = true
+				pp := lv.Ptr
+				spans = append(spans, span{hn, func(p Term) Term { return Eq(p, pp) }})
+			}
+		case *types.Slice:
+			if sv, ok := bv.V.(Term); ok {
+				hn, _ := x.heapOf(bt.Elem())
+				heaps[hn] = true
+				ss := sv
+				spans = append(spans, span{hn, func(p Term) Term {
+					return And(Eq(PBase(p), PBase(SlPtr(ss))), Ge(PIdx(p), PIdx(SlPtr(ss))), Lt(PIdx(p), Add(PIdx(SlPtr(ss)), SlCap(ss))))
+				}})
+			}
+		}
+	}
+	_ = spans
 	pre := st.Clone()
 	allocBefore := st.alloc
 	st.alloc = u.W.Fresh("alloc", SInt)
@@ -770,6 +812,7 @@ func init() {
 			return nil
 		},
 		"encoding/json.Unmarshal":       unmarshalLike(1),
+		"encoding/binary.Read":          unmarshalLike(2),
 		"gopkg.in/yaml.v3.Unmarshal":    unmarshalLike(1),
 		"(*sync.RWMutex).Lock":    lockOp("W", true),
 		"(*sync.RWMutex).Unlock":  lockOp("W", false),
@@ -973,6 +1016,29 @@ func unmarshalLike(argIdx int) intrinsic {
 		mi, ok := c.Args[argIdx].(*ssa.MakeInterface)
 		if !ok {
 			x.fail("%s: destination is not a direct pointer", fn)
+		}
+		if slt, isSl := mi.X.Type().Underlying().(*types.Slice); isSl {
+			// the destination is a slice: its elements are overwritten
+			sv := x.term(x.val(mi.X))
+			hn, hs := x.heapOf(slt.Elem())
+			u.usedAssumed[fn.String()+" (writes only the elements of the destination slice; result unconstrained)"] = true
+			if x.frame != nil && !x.frame.any {
+				p := w.Fresh("fp", SPtr)
+				inr := And(Eq(PBase(p), PBase(SlPtr(sv))), Ge(PIdx(p), PIdx(SlPtr(sv))), Lt(PIdx(p), Add(PIdx(SlPtr(sv)), SlLen(sv))))
+				x.obl("frame[decode into "+hn+"]", "frame", "decoded slice within modifies clause", st, Implies(inr, Or(Ge(PBase(p), x.alloc0), x.frame.Writable(hn, p))))
+			}
+			h := st.Heap(hn, hs)
+			nh := w.Fresh(hn+"@read", hs)
+			p := Term{"p!a", SPtr}
+			inRange := And(Eq(PBase(p), PBase(SlPtr(sv))), Ge(PIdx(p), PIdx(SlPtr(sv))), Lt(PIdx(p), Add(PIdx(SlPtr(sv)), SlLen(sv))))
+			x.assume(Term{fmt.Sprintf("(forall ((p!a Ptr)) (! (=> (not %s) (= (select %s p!a) (select %s p!a))) :pattern ((select %s p!a))))", inRange.S, nh.S, h.S, nh.S), SBool})
+			st.SetHeap(hn, nh)
+			var vals []Value
+			res := fn.Signature.Results()
+			for i := 0; i < res.Len(); i++ {
+				vals = append(vals, w.Fresh("r."+fn.Name(), w.SortOf(res.At(i).Type())))
+			}
+			return resultValue(vals)
 		}
 		pt, ok := mi.X.Type().Underlying().(*types.Pointer)
 		if !ok {
